@@ -1933,6 +1933,10 @@ NORETURN void real_main(int argc, char** argv) {
       exit(1);
     }
 
+    // Tools that run right after the manifest is loaded resolve their target
+    // arguments like a build does, including names relative to $builddir.
+    ninja.build_dir_ = ninja.state_.bindings_.LookupVariable("builddir");
+
     if (options.tool && options.tool->when == Tool::RUN_AFTER_LOAD)
       exit((ninja.*options.tool->func)(&options, argc, argv));
 
